@@ -9,20 +9,23 @@ TRUSTED_BASE_COMMON = [
     "exact rationals (Q) stand for binary64 floats; generators confined to dyadic values where float arithmetic is exact, cases near a rounding boundary are dropped and counted",
 ]
 
+# observable kinds of program suites (Corr/CheckProg.v): 1 outcome, 2 records, 4 volumes, 8 history, 16 composition,
+# 32 construction.  A disagreement between model and code counts for a property only in the kinds it speaks about.
+OUT, REC, VOL, HIS, CMP, CON = 1, 2, 4, 8, 16, 32
 _ALL = {
-    "C01": {"suites": ["prog", "wells"]},
-    "C02": {"suites": ["prog", "evocmd", "ctor"]},
-    "C03": {"suites": ["prog", "evocmd", "save"]},
-    "C04": {"suites": ["prog"]},
-    "C05": {"suites": ["prog", "ctor"]},
-    "C06": {"suites": ["pvol", "prog", "params"]},
-    "C07": {"suites": ["prog", "pcol"]},
-    "C08": {"suites": ["wells", "prog"]},
-    "C09": {"suites": ["params", "prog"]},
-    "C10": {"suites": ["params", "evocmd"]},
-    "C11": {"suites": ["prog"]},
+    "C01": {"suites": ["prog", "wells"], "mask": {"prog": OUT | REC | VOL | CMP | CON}},
+    "C02": {"suites": ["prog", "evocmd", "ctor", "floatops"], "mask": {"prog": OUT | VOL | CON, "evocmd": OUT | VOL | CON}},
+    "C03": {"suites": ["prog", "evocmd", "save"], "mask": {"prog": OUT | REC | VOL | CON, "evocmd": OUT | REC | VOL | CON}},
+    "C04": {"suites": ["prog"], "mask": {"prog": OUT | VOL | CON}},
+    "C05": {"suites": ["prog", "ctor"], "mask": {"prog": VOL | CMP | CON}},
+    "C06": {"suites": ["pvol", "prog", "params"], "mask": {"prog": OUT | REC, "params": OUT | REC}},
+    "C07": {"suites": ["prog", "pcol"], "mask": {"prog": OUT | REC}},
+    "C08": {"suites": ["wells", "prog"], "mask": {"prog": OUT | REC}},
+    "C09": {"suites": ["params", "prog"], "mask": {"prog": OUT | REC, "params": OUT | REC}},
+    "C10": {"suites": ["params", "evocmd"], "mask": {"params": OUT | REC, "evocmd": OUT | REC}},
+    "C11": {"suites": ["prog"], "mask": {"prog": OUT | HIS | CON}},
     "C12": {"suites": ["sel"]},
-    "C13": {"suites": ["evocmd"]},
+    "C13": {"suites": ["evocmd"], "mask": {"evocmd": OUT | REC | VOL | CON}},
     "C14": {"suites": ["plan"]},
     "C15": {"suites": ["xform"]},
     "C16": {"suites": ["devpair"]},
